@@ -11,7 +11,7 @@ TRUSTED_BASE = [
     'a sample of every run\'s cases is re-evaluated inside Coq with vm_compute and compared with the extracted model',
 ]
 
-LOOP_RULE = 'histories of 5-40 events (plus a quiescing tail) through the PRODUCTION event loop on socketpairs with a real poller and task queue: 1-3 clients, 2-3 backend nodes (layouts: full coverage / an unowned slot / an undialable node / two nodes; optional password handshake; optional 15 ms request timeout; optional 60-byte limit); clients send 1-3 requests per read (single-key incl. EVAL/EVALSHA and other table commands in mixed case, AUTH with right/wrong/unexpected password, MGET/DEL/MSET over several slots, PING, unknown command, wrong arity, QUIT, keys that make the fake backend answer an error / MOVED to a known node / MOVED to an unknown node / ASK, also inside split MGET/DEL/MSET), sometimes cut inside a request; task rounds; backends answer 1-3 pending fragments, sometimes with the reply cut in two reads; client closes; backend closes; timeout scans after a real sleep; ticker rounds that send the CLUSTER NODES probe on a random node (dialling if needed); plus 60 (quick) topology histories on four nodes in which the ticker applies topologies adopted from CLUSTER NODES texts by the production topology code while requests are in flight (slot migration, removal of a node, demotion of a master to a replica, promotion); plus deep-backlog histories (one slow request at the head, 1025-1224 completed replies behind it). Nondeterminism of the Go code (map iteration order within one request, dial order) is recorded from the run and given to the model as oracle. distinct = distinct history; non-trivial = history contains at least one of the tagged situations (input_distribution shows how often each occurred)'
+LOOP_RULE = 'histories of 5-40 events (plus a quiescing tail) through the PRODUCTION event loop on socketpairs with a real poller and task queue: 1-3 clients, 2-3 backend nodes (layouts: full coverage / an unowned slot / an undialable node / two nodes; optional password handshake; optional 15 ms request timeout; optional 60- or 100-byte limit); clients send 1-3 requests per read (single-key incl. EVAL/EVALSHA and other table commands in mixed case, AUTH with right/wrong/unexpected password, MGET/DEL/MSET over several slots, PING, unknown command, wrong arity, QUIT, keys that make the fake backend answer an error / MOVED to a known node / MOVED to an unknown node / ASK, also inside split MGET/DEL/MSET), sometimes cut inside a request; task rounds; backends answer 1-3 pending fragments, sometimes with the reply cut in two reads (the second part at once, or held back until the next answer of that node so that other events fall between the halves); MGET keys with the marker big (30 bytes more in the value: the assembled reply exceeds a 60/100-byte limit that each fragment respects); client closes; backend closes; timeout scans after a real sleep; ticker rounds that send the CLUSTER NODES probe on a random node (dialling if needed); plus 60 (quick) topology histories on four nodes in which the ticker applies topologies adopted from CLUSTER NODES texts by the production topology code while requests are in flight (slot migration, removal of a node, demotion of a master to a replica, promotion); plus deep-backlog histories (one slow request at the head, 1025-1224 completed replies behind it). Nondeterminism of the Go code (map iteration order within one request, dial order) is recorded from the run and given to the model as oracle. distinct = distinct history; non-trivial = history contains at least one of the tagged situations (input_distribution shows how often each occurred)'
 
 PROPS = {
     'C05': {
@@ -97,7 +97,7 @@ PROPS = {
     'C02': {
         'props': 'Props/C02.v',
         'suites': [{'name': 'cdecode', 'oracles': {'cdecode': 'o_reqs'}, 'trivial_tags': ['out-wait'], 'vm_sample': 40}, {'name': 'sdecode', 'trivial_tags': ['out-wait'], 'vm_sample': 40}, {'name': 'merge', 'oracles': {'merge': 'o_merge'}, 'trivial_tags': ['frags-1'], 'vm_sample': 25},
-                   {'name': 'loop', 'oracles': {'loop': 'o_loop'}, 'trivial_tags': ['plain'], 'vm_sample': 6, 'sigs': ['backend-received-bytes-that-are-not-requests', 'reply-does-not-belong-to-the-request-at-its-position', 'event-loop-stopped']}],
+                   {'name': 'loop', 'oracles': {'loop': 'o_loop'}, 'trivial_tags': ['plain'], 'vm_sample': 6, 'sigs': ['backend-received-bytes-that-are-not-requests', 'reply-does-not-belong-to-the-request-at-its-position', 'event-loop-stopped']}, {'name': 'pressure', 'oracles': {'loopfinal': 'o_loop'}, 'trivial_tags': ['plain'], 'vm_sample': 3, 'sigs': ['reply-does-not-belong-to-the-request-at-its-position', 'backend-received-bytes-that-are-not-requests', 'stray-bytes-after-the-last-reply', 'more-replies-than-requests', 'event-loop-stopped']}],
         'rule': 'cdecode: every single-key command with empty/binary/CRLF-bearing arguments; sdecode: random RESP2 values to depth 4 (status, error, integer, bulk incl. 9/10/99/100/999/1000-byte, '
                 'null, arrays, null array), pipelined, every kind of prefix, mutated; handshake decoder on all splits of one and two +OK; merge: single-key round trips through the real loop',
         'explanation': 'Theorems: the single fragment is the client request with only the command name lower-cased (C02_request); every well-formed RESP2 value is framed exactly whatever follows '
@@ -109,7 +109,7 @@ PROPS = {
         'props': 'Props/C04.v',
         'suites': [{'name': 'route', 'oracles': {'route': 'o_route'}, 'trivial_tags': ['live-0'], 'vm_sample': 40},
                    {'name': 'cluster', 'oracles': {'cluster': 'o_cluster'}, 'trivial_tags': ['nodes-1', 'nodes-2'], 'vm_sample': 10, 'sigs': ['pool-set-or-pool-role-differs-from-latest-valid-description']},
-                   {'name': 'loop', 'oracles': {'loop': 'o_loop'}, 'trivial_tags': ['plain'], 'vm_sample': 6, 'sigs': ['request-delivered-to-a-node-that-does-not-own-the-slot', 'event-loop-stopped']},
+                   {'name': 'loop', 'oracles': {'loop': 'o_loop'}, 'trivial_tags': ['plain'], 'vm_sample': 6, 'sigs': ['request-delivered-to-a-node-that-does-not-own-the-slot', 'connection-to-removed-node-left-open', 'event-loop-stopped']},
                    {'name': 'replicas', 'oracles': {'loopspec': 'o_loop'}, 'oracle_only_entries': ['loopspec'], 'trivial_tags': [], 'vm_sample': 0,
                     'sigs': ['request-delivered-to-a-node-that-does-not-own-the-slot', 'replica-connection-used-without-readonly', 'reply-does-not-belong-to-the-request-at-its-position', 'request-never-answered-and-connection-left-open', 'more-replies-than-requests', 'backend-received-bytes-that-are-not-requests', 'event-loop-stopped']}],
         'rule': 'replicas: 120 (quick) event-loop histories with replica reads ENABLED (three masters with 0-2 replicas each, optional password), judged by the specification oracle alone: requests reach the master or - reads only - a replica of the owning set, READONLY precedes the first request on a replica connection; loop: the event-loop histories of C01 (every request a fake node receives is checked against the slot table); listenServer.route for every command type of the table on fixed 0/2/3-replica sets (4 random seeds each, replica reads on/off) and on random sets of 0-4 replicas '
@@ -179,7 +179,7 @@ PROPS = {
     },
     'C15': {
         'props': 'Props/C15.v',
-        'suites': [{'name': 'loop', 'oracles': {'loop': 'o_loop'}, 'trivial_tags': ['plain'], 'vm_sample': 12, 'sigs': ['request-never-answered-and-connection-left-open', 'completed-reply-withheld-at-head-of-queue', 'event-loop-stopped']}],
+        'suites': [{'name': 'loop', 'oracles': {'loop': 'o_loop'}, 'trivial_tags': ['plain'], 'vm_sample': 12, 'sigs': ['request-never-answered-and-connection-left-open', 'completed-reply-withheld-at-head-of-queue', 'connection-to-removed-node-left-open', 'event-loop-stopped']}],
         'rule': LOOP_RULE,
         'explanation': 'Theorems over ALL event histories: (1) C15_no_orphan - every fragment that still owes a reply is held by an OPEN backend connection (awaiting a reply or waiting to be written), so a reply, the loss of the connection or the timeout resolves it (NInv, inductive over events, uses the decoder fact that every fragment of a decoded request has a routed per-slot request); (2) C15_close_completes - losing a connection completes in the same step every request with a fragment on it; (3) redirects to unknown / unconnectable nodes complete the request with an error; (4) completed requests are flushed (C09); (5) the pool never hands out a dead connection. Two genuine defects repaired (closeConn on a backend connection only logged: clients waited forever; OnMoved dropped the request on an unknown node). Histories close backends before the write, after the write and between the replies of split requests.',
         'assumptions': ['as C01', 'removal of a node from the topology (ticker closing its pool) is covered by C14 for the pool set; in the event-loop model a removed node is a closed pool (pp_closed) and its connections are closed by EServerClose events', 'liveness is proved as "no orphan + each resolving event completes"; that one of the resolving events eventually happens (the kernel reports the close, the timer fires) is runtime behaviour'],
@@ -221,6 +221,7 @@ PROPS = {
 # wrong node shows there)
 for _pid in ('C06', 'C07', 'C11', 'C17'):
     PROPS[_pid]['rule'] += ' | loop suite: ' + LOOP_RULE
+PROPS['C02']['rule'] += ' | loop suite: ' + LOOP_RULE + ' | pressure suite: as C10 (replies and requests larger than the socket buffers, peers that read late and in pieces)'
 
 NOT_YET = {}
 
